@@ -236,7 +236,7 @@ class RandomImproveMultiAsset(UTxOSelector):
             # In case where there is no remaining UTxOs or we already selected more than ideal,
             # we cannot improve by randomly adding more UTxOs, therefore return immediate.
             return
-        if max_input_count is not None and len(selected) > max_input_count:
+        if max_input_count is not None and len(selected) >= max_input_count:
             raise MaxInputCountExceededException(
                 f"Max input count: {max_input_count} exceeded!"
             )
